@@ -49,9 +49,11 @@ Reset == /\ IsKind("reset")
 Flush(id) ==
   LET ws == SetToSeq(DOMAIN W)
       \* with several Watchers in the scenario a wrong event stream also contradicts C14 (independence of other Watchers)
-      Props(p) == IF Cardinality(DOMAIN W) > 1 /\ p \cap {"C01", "C02", "C03", "C08", "C11"} # {} THEN p \cup {"C14"} ELSE p
+      Props1(p) == IF Cardinality(DOMAIN W) > 1 /\ p \cap {"C01", "C02", "C03", "C08", "C11"} # {} THEN p \cup {"C14"} ELSE p
+      \* ... and with a recursive watch, C19 (true paths, exactly its own tree)
+      Props2(w, p) == IF W[w].recursive /\ p \cap {"C01", "C02", "C03", "C08", "C09"} # {} THEN p \cup {"C19"} ELSE p
       perW == [k \in 1..Len(ws) |-> [b \in 1..Len(W[ws[k]].bad) |->
-                  [id |-> id, w |-> ws[k], props |-> Props(W[ws[k]].bad[b].props), cause |-> W[ws[k]].bad[b].cause]]]
+                  [id |-> id, w |-> ws[k], props |-> Props2(ws[k], Props1(W[ws[k]].bad[b].props)), cause |-> W[ws[k]].bad[b].cause]]]
       glob == [b \in 1..Len(g.gbad) |-> [id |-> id, w |-> "", props |-> g.gbad[b].props, cause |-> g.gbad[b].cause]]
   IN FlattenSeq(perW) \o glob
 
@@ -82,8 +84,17 @@ ApplyAll(ws, recs, base, maxq, unordered) ==
   IF recs = <<>> THEN ws
   ELSE FoldLeft(LAMBDA acc, k : ApplyRec(acc, recs[k], base + k, maxq, unordered), ws, [k \in 1..Len(recs) |-> k])
 
+\* which record of this step names the created / moved directory in its parent
+ParentOf(recs, bit) == LET S == {k \in 1..Len(recs) : HasBit(recs[k].m, bit) /\ HasBit(recs[k].m, IN_ISDIR)} IN
+                       IF S = {} THEN [ino |-> "", n |-> ""] ELSE LET k == CHOOSE k \in S : TRUE IN [ino |-> recs[k].ino, n |-> recs[k].n]
+DirBook(ws, ln) ==
+  IF ~ws.recursive \/ ln.ret # "ok" THEN ws
+  ELSE IF ln.op = "mkdir" THEN LET p == ParentOf(ln.shadow, IN_CREATE) IN CoverNewDir(ws, p.ino, p.n, ln.ino)
+  ELSE IF ln.op = "rename" /\ ln.kind = "dir" THEN LET p == ParentOf(ln.shadow, IN_MOVED_TO) IN MoveDir(ws, ln.ino, p.ino, p.n)
+  ELSE ws
+
 Fs == /\ IsKind("fs")
-      /\ W' = [w \in DOMAIN W |-> ApplyAll(W[w], Line.shadow, seq, g.maxq, Line.op = "par")]
+      /\ W' = [w \in DOMAIN W |-> DirBook(ApplyAll(W[w], Line.shadow, seq, g.maxq, Line.op = "par"), Line)]
       /\ seq' = seq + Len(Line.shadow)
       /\ g' = IF \E k \in 1..Len(Line.shadow) : Line.shadow[k].ino \in {"?", "overflow"}
               THEN Infra("shadow record without object") ELSE g
@@ -104,10 +115,12 @@ CallResult(ws, c) ==
   ELSE IF c.ret = "pending" THEN LET b == Fog(Note(ws, "async")) IN
                             IF c.op = "close" THEN [RelaxAll(b) EXCEPT !.phase = "closing"] ELSE b
   ELSE CASE c.op = "add" ->
-              IF c.recurse THEN Fog(ws)
+              IF c.recurse THEN IdealAddRec(ws, Clean(c.abs, c.arg), c.reserr, c.tree,
+                                            InotifyRequest(IF c.ops = -1 THEN DefaultOps ELSE c.ops), c.ret)
               ELSE IdealAdd(ws, Clean(c.abs, c.arg), c.resino, c.reserr,
                             InotifyRequest(IF c.ops = -1 THEN DefaultOps ELSE c.ops), c.ret)
-         [] c.op = "remove"    -> IdealRemove(ws, Clean(c.abs, c.arg), c.ret)
+         [] c.op = "remove"    -> IF c.recurse THEN IdealRemoveRec(ws, Clean(c.abs, c.arg), c.ret)
+                                  ELSE IdealRemove(ws, Clean(c.abs, c.arg), c.ret)
          [] c.op = "watchlist" -> CheckWL(ws, c.wl, c.wlnil)
          [] c.op = "close"     -> IdealClose(ws, c.ret)
          [] OTHER -> ws
